@@ -1,8 +1,8 @@
-(** Properties_C16.v — statements only.  Each theorem is closed by [exact <lemma of NumProofs>]
+(** Properties_C16.v — statements only.  Each theorem is closed by [exact <lemma of NumProofs / NumMoreProofs>]
     and followed by Print Assumptions.  C16: numeric text is recognised per the CellML grammar and
     never crashes. *)
 From Coq Require Import String Ascii List Bool ZArith.
-From LC Require Import NumDefs NumSpec NumProofs.
+From LC Require Import NumDefs NumSpec NumProofs NumMoreProofs.
 Local Open Scope string_scope.
 
 (** The integer recogniser accepts exactly the integer grammar. *)
@@ -58,3 +58,243 @@ Print Assumptions C16_unfixed_refuted.
 Example C16_nonvacuous : RealG "-1.5e+07" /\ IntG "+12" /\ is_real "-1.5e+07" = true /\ to_int "+12" = Value 12%Z.
 Proof. exact NumProofs.nonvacuous. Qed.
 Print Assumptions C16_nonvacuous.
+
+(** ---- Second wave (NumMoreProofs.v): every statement below is over ALL strings. ---- *)
+
+(** 1. Recognisers against their grammars, both directions.  The code and the oracle automata agree as
+    booleans, i.e. also on every rejected string. *)
+Theorem C16_is_real_eq_dfa : forall s, is_real s = real_dfa s.
+Proof. exact NumMoreProofs.is_real_dfa_eq. Qed.
+Print Assumptions C16_is_real_eq_dfa.
+
+Theorem C16_is_int_eq_dfa : forall s, is_int s = int_dfa s.
+Proof. exact NumMoreProofs.is_int_dfa_eq. Qed.
+Print Assumptions C16_is_int_eq_dfa.
+
+(** isNonNegativeCellMLInteger accepts exactly one or more digits. *)
+Theorem C16_nonneg_int_iff : forall s, is_nonneg_int s = true <-> Digits1 s.
+Proof. exact NumMoreProofs.nonneg_int_iff_digits1. Qed.
+Print Assumptions C16_nonneg_int_iff.
+
+(** isCellMLBasicReal accepts exactly: optional '-', mantissa with at least one digit and at most one point. *)
+Theorem C16_basic_real_iff : forall s, is_basic_real s = true <-> BasicRealG s.
+Proof. exact NumMoreProofs.basic_real_iffG. Qed.
+Print Assumptions C16_basic_real_iff.
+
+(** ... which is: a real without exponent letter. *)
+Theorem C16_basic_real_iff_real_noexp : forall s,
+  is_basic_real s = true <-> is_real s = true /\ count_char "e" s = 0 /\ count_char "E" s = 0.
+Proof. exact NumMoreProofs.basic_real_iff_real_noexp. Qed.
+Print Assumptions C16_basic_real_iff_real_noexp.
+
+(** isEuropeanNumericCharacter accepts exactly the ten ASCII digits. *)
+Theorem C16_is_digit_iff : forall c, is_digit c = true <-> In c ten_digits.
+Proof. exact NumMoreProofs.is_digit_iff. Qed.
+Print Assumptions C16_is_digit_iff.
+
+(** 2. Inclusions: non-negative integer < integer, non-negative integer < basic real < real; an integer is a
+    (basic) real exactly when it does not start with '+'; all inclusions are strict. *)
+Theorem C16_nonneg_sub_int : forall s, is_nonneg_int s = true -> is_int s = true.
+Proof. exact NumMoreProofs.nonneg_sub_int. Qed.
+Print Assumptions C16_nonneg_sub_int.
+
+Theorem C16_nonneg_sub_basic_real : forall s, is_nonneg_int s = true -> is_basic_real s = true.
+Proof. exact NumMoreProofs.nonneg_sub_basic_real. Qed.
+Print Assumptions C16_nonneg_sub_basic_real.
+
+Theorem C16_basic_real_sub_real : forall s, is_basic_real s = true -> is_real s = true.
+Proof. exact NumMoreProofs.basic_real_sub_real. Qed.
+Print Assumptions C16_basic_real_sub_real.
+
+Theorem C16_int_sub_basic_real : forall s, is_int s = true -> first_plus s = false -> is_basic_real s = true.
+Proof. exact NumMoreProofs.int_sub_basic_real. Qed.
+Print Assumptions C16_int_sub_basic_real.
+
+Theorem C16_int_real_iff_noplus : forall s, is_int s = true -> (is_real s = true <-> first_plus s = false).
+Proof. exact NumMoreProofs.int_real_iff_noplus. Qed.
+Print Assumptions C16_int_real_iff_noplus.
+
+Theorem C16_plus_not_real : forall r, is_real (String "+" r) = false.
+Proof. exact NumMoreProofs.plus_not_real. Qed.
+Print Assumptions C16_plus_not_real.
+
+Theorem C16_strictness_witnesses : (is_int "-1" = true /\ is_nonneg_int "-1" = false) /\
+  (is_basic_real "1.5" = true /\ is_int "1.5" = false) /\
+  (is_real "1e5" = true /\ is_basic_real "1e5" = false) /\
+  (is_int "+1" = true /\ is_real "+1" = false).
+Proof. exact NumMoreProofs.strictness_witnesses. Qed.
+Print Assumptions C16_strictness_witnesses.
+
+(** 3. Conversion safety.  [strtod_rest] / [strtol_rest] model the C prefix grammars: None = no conversion
+    (std::stod / std::stoi throw), Some rest = the characters left unconsumed (silently dropped by the
+    conversion).  Accepted text converts and is consumed entirely. *)
+Theorem C16_real_strtod_whole : forall s, is_real s = true -> strtod_rest s = Some "".
+Proof. exact NumMoreProofs.real_strtod_whole. Qed.
+Print Assumptions C16_real_strtod_whole.
+
+Theorem C16_basic_real_strtod_whole : forall s, is_basic_real s = true -> strtod_rest s = Some "".
+Proof. exact NumMoreProofs.basic_real_strtod_whole. Qed.
+Print Assumptions C16_basic_real_strtod_whole.
+
+Theorem C16_int_strtol_whole : forall s, is_int s = true -> strtol_rest s = Some "".
+Proof. exact NumMoreProofs.int_strtol_whole. Qed.
+Print Assumptions C16_int_strtol_whole.
+
+Theorem C16_nonneg_strtol_whole : forall s, is_nonneg_int s = true -> strtol_rest s = Some "".
+Proof. exact NumMoreProofs.nonneg_strtol_whole. Qed.
+Print Assumptions C16_nonneg_strtol_whole.
+
+(** the prefix models refine the conversion predicates of NumDefs (used by the extracted model) *)
+Theorem C16_strtod_rest_converts : forall s, strtod_converts s = is_some (strtod_rest s).
+Proof. exact NumMoreProofs.strtod_rest_converts. Qed.
+Print Assumptions C16_strtod_rest_converts.
+
+Theorem C16_strtol_rest_converts : forall s, strtol_converts s = is_some (strtol_rest s).
+Proof. exact NumMoreProofs.strtol_rest_converts. Qed.
+Print Assumptions C16_strtol_rest_converts.
+
+(** the prefix grammars themselves do drop tails; the recognisers reject exactly those strings *)
+Theorem C16_prefix_models_drop_tails : strtod_rest "1.5x" = Some "x" /\ strtod_rest " -1e" = Some "e" /\ strtod_rest "1e+" = Some "e+" /\
+  strtod_rest "1.2.3" = Some ".3" /\ strtod_rest "-." = None /\
+  strtol_rest " +12abc" = Some "abc" /\ strtol_rest "1.5" = Some ".5" /\ strtol_rest "+" = None /\
+  is_real "1.5x" = false /\ is_real " -1e" = false /\ is_real "1e+" = false /\ is_real "1.2.3" = false /\
+  is_int " +12abc" = false /\ is_int "1.5" = false.
+Proof. exact NumMoreProofs.prefix_models_drop_tails. Qed.
+Print Assumptions C16_prefix_models_drop_tails.
+
+(** At least one digit, and in the significand (the text before the first e/E): what the fix
+    "digit-less reals" repaired. *)
+Theorem C16_real_mantissa_digit : forall s, is_real s = true -> has_digit (before_e s) = true.
+Proof. exact NumMoreProofs.real_mantissa_digit. Qed.
+Print Assumptions C16_real_mantissa_digit.
+
+Theorem C16_real_has_digit : forall s, is_real s = true -> has_digit s = true.
+Proof. exact NumMoreProofs.real_has_digit. Qed.
+Print Assumptions C16_real_has_digit.
+
+Theorem C16_basic_real_has_digit : forall s, is_basic_real s = true -> has_digit s = true.
+Proof. exact NumMoreProofs.basic_real_has_digit. Qed.
+Print Assumptions C16_basic_real_has_digit.
+
+Theorem C16_int_has_digit : forall s, is_int s = true -> has_digit s = true.
+Proof. exact NumMoreProofs.int_has_digit. Qed.
+Print Assumptions C16_int_has_digit.
+
+Theorem C16_unfixed_digitless : (is_real_gen false "-" = true /\ has_digit "-" = false /\ strtod_rest "-" = None) /\
+  (is_real_gen false "." = true /\ has_digit "." = false /\ strtod_rest "." = None) /\
+  (is_real_gen false ".e5" = true /\ has_digit (before_e ".e5") = false /\ strtod_rest ".e5" = None) /\
+  (is_real_gen false "-.E-1" = true /\ has_digit (before_e "-.E-1") = false /\ strtod_rest "-.E-1" = None).
+Proof. exact NumMoreProofs.unfixed_digitless. Qed.
+Print Assumptions C16_unfixed_digitless.
+
+(** 4. Closure facts.  A character outside the alphabet rejects wherever it stands ... *)
+Theorem C16_real_char_anywhere : forall a c b, real_alpha c = false -> is_real (a ++ String c b) = false.
+Proof. exact NumMoreProofs.real_char_anywhere. Qed.
+Print Assumptions C16_real_char_anywhere.
+
+Theorem C16_basic_real_char_anywhere : forall a c b, real_alpha c = false -> is_basic_real (a ++ String c b) = false.
+Proof. exact NumMoreProofs.basic_real_char_anywhere. Qed.
+Print Assumptions C16_basic_real_char_anywhere.
+
+Theorem C16_int_char_anywhere : forall a c b, int_alpha c = false -> is_int (a ++ String c b) = false.
+Proof. exact NumMoreProofs.int_char_anywhere. Qed.
+Print Assumptions C16_int_char_anywhere.
+
+Theorem C16_nonneg_char_anywhere : forall a c b, is_digit c = false -> is_nonneg_int (a ++ String c b) = false.
+Proof. exact NumMoreProofs.nonneg_char_anywhere. Qed.
+Print Assumptions C16_nonneg_char_anywhere.
+
+(** ... in particular white space (anywhere, hence leading and trailing) and non-ASCII bytes. *)
+Theorem C16_space_rejected : forall a c b, is_space c = true ->
+  is_real (a ++ String c b) = false /\ is_basic_real (a ++ String c b) = false /\
+  is_int (a ++ String c b) = false /\ is_nonneg_int (a ++ String c b) = false.
+Proof. exact NumMoreProofs.space_rejected. Qed.
+Print Assumptions C16_space_rejected.
+
+Theorem C16_leading_space_rejected : forall c b, is_space c = true ->
+  is_real (String c b) = false /\ is_basic_real (String c b) = false /\
+  is_int (String c b) = false /\ is_nonneg_int (String c b) = false.
+Proof. exact NumMoreProofs.leading_space_rejected. Qed.
+Print Assumptions C16_leading_space_rejected.
+
+Theorem C16_trailing_space_rejected : forall a c, is_space c = true ->
+  is_real (a ++ String c "") = false /\ is_basic_real (a ++ String c "") = false /\
+  is_int (a ++ String c "") = false /\ is_nonneg_int (a ++ String c "") = false.
+Proof. exact NumMoreProofs.trailing_space_rejected. Qed.
+Print Assumptions C16_trailing_space_rejected.
+
+Theorem C16_non_ascii_rejected : forall a c b, (128 <= nat_of_ascii c)%nat ->
+  is_real (a ++ String c b) = false /\ is_basic_real (a ++ String c b) = false /\
+  is_int (a ++ String c b) = false /\ is_nonneg_int (a ++ String c b) = false.
+Proof. exact NumMoreProofs.non_ascii_rejected. Qed.
+Print Assumptions C16_non_ascii_rejected.
+
+(** Signs: in a real a sign stands in front (and then it is '-') or right after the e/E; an integer has no
+    sign after its first character; a basic real has no '+' and '-' only in front; at most two signs,
+    one e/E and one point in all. *)
+Theorem C16_sign_position : forall a c b, is_sign c = true -> is_real (a ++ String c b) = true ->
+  (a = "" /\ c = "-"%char) \/ last_is_e a = true.
+Proof. exact NumMoreProofs.sign_position. Qed.
+Print Assumptions C16_sign_position.
+
+Theorem C16_int_sign_front : forall c r, is_int (String c r) = true ->
+  count_char "-" r = 0 /\ count_char "+" r = 0.
+Proof. exact NumMoreProofs.int_sign_front. Qed.
+Print Assumptions C16_int_sign_front.
+
+Theorem C16_basic_real_sign_front : forall c r, is_basic_real (String c r) = true ->
+  count_char "-" r = 0 /\ count_char "+" (String c r) = 0.
+Proof. exact NumMoreProofs.basic_real_sign_front. Qed.
+Print Assumptions C16_basic_real_sign_front.
+
+Theorem C16_real_sign_count : forall s, is_real s = true -> count_char "-" s + count_char "+" s <= 2.
+Proof. exact NumMoreProofs.real_sign_count. Qed.
+Print Assumptions C16_real_sign_count.
+
+Theorem C16_real_one_e : forall s, is_real s = true -> count_char "e" s + count_char "E" s <= 1.
+Proof. exact NumMoreProofs.real_one_e. Qed.
+Print Assumptions C16_real_one_e.
+
+Theorem C16_real_one_dot : forall s, is_real s = true -> count_char "." s <= 1.
+Proof. exact NumMoreProofs.real_one_dot. Qed.
+Print Assumptions C16_real_one_dot.
+
+(** Exponent forms: a string with an e/E at some position is a real exactly when the text before is a basic
+    real and the text after an integer (equality of booleans: also for every rejected split); the
+    exponent needs a digit. *)
+Theorem C16_real_exp_split : forall x ec y, (ec = "e"%char \/ ec = "E"%char) ->
+  is_real (x ++ String ec y) = is_basic_real x && is_int y.
+Proof. exact NumMoreProofs.real_exp_split. Qed.
+Print Assumptions C16_real_exp_split.
+
+Theorem C16_exp_forms : forall x ec y, (ec = "e"%char \/ ec = "E"%char) ->
+  (is_real (x ++ String ec y) = true <-> BasicRealG x /\ IntG y).
+Proof. exact NumMoreProofs.exp_forms. Qed.
+Print Assumptions C16_exp_forms.
+
+Theorem C16_exp_needs_digit : forall x ec sg, (ec = "e"%char \/ ec = "E"%char) -> (sg = "" \/ sg = "+" \/ sg = "-") ->
+  is_real (x ++ String ec sg) = false.
+Proof. exact NumMoreProofs.exp_needs_digit. Qed.
+Print Assumptions C16_exp_needs_digit.
+
+(** Non-vacuity of the second wave: accepted strings of every kind exist and are consumed entirely; the
+    hypotheses of the closure statements are satisfiable. *)
+Example C16_more_nonvacuous :
+  is_real "-1.5e+07" = true /\ strtod_rest "-1.5e+07" = Some "" /\ has_digit (before_e "-1.5e+07") = true /\
+  is_real ".5E3" = true /\ strtod_rest ".5E3" = Some "" /\ is_real "5." = true /\ strtod_rest "5." = Some "" /\
+  is_int "-12" = true /\ strtol_rest "-12" = Some "" /\
+  BasicRealG "-0.5" /\ is_basic_real "-0.5" = true /\ is_nonneg_int "007" = true /\ Digits1 "007".
+Proof. exact NumMoreProofs.more_nonvacuous. Qed.
+Print Assumptions C16_more_nonvacuous.
+
+Example C16_hyps_nonvacuous :
+  (is_space " " = true /\ is_space "009" = true /\ is_space "010" = true) /\
+  (128 <= nat_of_ascii "200")%nat /\
+  (real_alpha "x" = false /\ int_alpha "." = false /\ real_alpha "." = true) /\
+  (is_sign "-" = true /\ is_real ("1e" ++ String "-" "5") = true /\ last_is_e "1e" = true) /\
+  (is_sign "-" = true /\ is_real ("" ++ String "-" "5") = true) /\
+  (is_int "-1" = true /\ first_plus "-1" = false /\ is_basic_real "-1" = true) /\
+  (is_real ("-1.5" ++ String "E" "+07") = true /\ is_basic_real "-1.5" = true /\ is_int "+07" = true) /\
+  (is_basic_real "-1.5" = true /\ count_char "e" "-1.5" = 0 /\ count_char "E" "-1.5" = 0).
+Proof. exact NumMoreProofs.hyps_nonvacuous. Qed.
+Print Assumptions C16_hyps_nonvacuous.
